@@ -23,6 +23,7 @@ import (
 	"path/filepath"
 	"runtime/debug"
 	"sort"
+	"strconv"
 	"strings"
 	"sync"
 	"sync/atomic"
@@ -429,7 +430,18 @@ func Enum[C any](t *testing.T, each func(yield func(C) bool), run func(C) (Resul
 	defer r.Finish()
 	fails := 0
 	complete := true
+	// VERIF_ENUM_SHARD=i, VERIF_ENUM_SHARDS=n: this process takes the cases with index = i mod n
+	// (the driver starts n processes for an enumerator with "shards": n)
+	shard, shards, idx := 0, 1, -1
+	if n, err := strconv.Atoi(os.Getenv("VERIF_ENUM_SHARDS")); err == nil && n > 1 {
+		shards = n
+		shard, _ = strconv.Atoi(os.Getenv("VERIF_ENUM_SHARD"))
+	}
 	each(func(c C) bool {
+		idx++
+		if idx%shards != shard {
+			return true
+		}
 		if f := Exec(r, c, "", run); f != nil {
 			// Exec keeps only the latest campaign failure; for enumerators keep the first
 			fails++
